@@ -74,6 +74,7 @@ type pathState struct {
 	mapSite  int // if >0: only the n-th multi-entry range site is perturbed (reversed)
 	mapSites int // number of multi-entry map range sites met so far
 	fs       *vfs
+	fsx      *vfsState
 	sched    *scheduler
 	memo     map[int]uint64
 	assumedAscii map[int]bool
